@@ -1,6 +1,7 @@
 package main
 
 import (
+	"os"
 	"fmt"
 	"go/constant"
 	"go/token"
@@ -51,6 +52,7 @@ type Frame struct {
 	entrySt  *State
 	envVars  map[string]Val
 	refs     map[string][]refRec
+	callOrdinals map[*CallAnn]map[ssa.Instruction]int
 	curBlock *ssa.BasicBlock
 	// results
 	rets []retInfo
@@ -377,6 +379,16 @@ func (c *Ctx) mergeStates(conds []string, states []*State) *State {
 		}
 		if same {
 			out.heap[k] = ts[0]
+			continue
+		}
+		if os.Getenv("GOVC_MERGE") == "eq" {
+			// a fresh component equal to the predecessor's version under each (mutually exclusive) edge condition:
+			// equalities let the solver's congruence closure identify the versions after the case split
+			m := c.fresh(k, c.compSort[k])
+			for i := range ts {
+				c.assume(conds[i], tEq(m, ts[i]))
+			}
+			out.heap[k] = m
 			continue
 		}
 		t := ts[len(ts)-1]
